@@ -121,6 +121,24 @@ Definition spec05_step (runs : list run_in) (prev : store_obs) (r : run_in) (o :
      | Some _, None => false
      end.
 
+(* C04, "usable for validation": when the run leaves the stored point as it was (and the copy is
+   consistent) and its manifest still validates as a stored manifest under the run's policy, the whole
+   object set of that stored version is contributed *)
+Definition stored_valid (p : policy) (v : version) : bool :=
+  v_decodes v && v_valid v && stale_ok p (v_stale v) && v_crl_inner v && stale_ok p (v_crl_stale v).
+Definition sub_nl (a b : list N) : bool := forallb (fun x => existsb (N.eqb x) b) a.
+Definition usable04_step (runs : list run_in) (prev : store_obs) (r : run_in) (o : obs) : bool :=
+  let prev' := tampered (r_tamper r) prev in
+  if so_eqb (o_store o) prev' && consistent_obs runs prev' then
+    match prev' with
+    | Some (_, _, i, _) => match find_version runs i with
+                           | Some v => if stored_valid (r_policy r) v then sub_nl (set_payload v) (o_payload o) else true
+                           | None => true
+                           end
+    | None => true
+    end
+  else true.
+
 Fixpoint spec_hist (stepb : store_obs -> run_in -> obs -> bool) (prev : store_obs)
          (runs : list run_in) (os : list obs) : bool :=
   match runs, os with
@@ -135,6 +153,8 @@ Definition spec04_okb (runs : list run_in) (os : list obs) : bool :=
   spec_hist (spec04_step runs) None runs os.
 Definition spec05_okb (runs : list run_in) (os : list obs) : bool :=
   spec_hist (spec05_step runs) None runs os.
+Definition usable04_okb (runs : list run_in) (os : list obs) : bool :=
+  spec_hist (usable04_step runs) None runs os.
 
 (* ---- well-formed inputs ---- *)
 Fixpoint nodupb (l : list N) : bool :=
@@ -175,5 +195,6 @@ Definition check_with (okb : bool) (c : case) : N :=
   else if obsl_eqb (model_obs (c_base c) (c_runs c)) (c_impl c) then 0 else 1.
 
 Definition check_case (c : case) : N := check_with (spec03_okb (c_base c) (c_runs c) (c_impl c)) c.
-Definition check_case04 (c : case) : N := check_with (spec04_okb (c_runs c) (c_impl c)) c.
+Definition check_case04 (c : case) : N :=
+  check_with (spec04_okb (c_runs c) (c_impl c) && usable04_okb (c_runs c) (c_impl c)) c.
 Definition check_case05 (c : case) : N := check_with (spec05_okb (c_runs c) (c_impl c)) c.
